@@ -71,6 +71,17 @@ VARIANTS = [
                                (C, ('        self.encoding = encoding\n        self.stream = encode_input_stream', '        open_iterators.append(self)\n        self.encoding = encoding\n        self.stream = encode_input_stream'))], 'rbql_csv.open_iterators'),
     ('walrus_alias', [(E, after(Q, "    if (g := default_statement_groups):\n        g.pop()\n"))], 'rbql_engine.default_statement_groups'),
     ('external_module_attribute', [(E, after(Q, "    sys.stdout = sys.stderr\n"))], 'ext:sys.stdout'),
+    ('lazy_global_cache', [(E, before(DSG, 'plan_cache = None\n')), (E, after(Q, "    global plan_cache\n    if plan_cache is None:\n        plan_cache = {}\n"))], 'rbql_engine.plan_cache'),
+    ('rebound_elsewhere_then_mutated', [(E, before(DSG, 'plan_cache = None\n\ndef enable_plan_cache():\n    global plan_cache\n    plan_cache = {}\n\n')),
+                                        (E, after(Q, "    if plan_cache is not None:\n        plan_cache[query_text] = 1\n"))], 'rbql_engine.plan_cache'),
+    ('class_attr_rebound_on_class', [(E, ('class TopWriter(object):\n', 'class TopWriter(object):\n    total = 0\n')),
+                                     (E, ('        if self.NW >= self.top_count:\n            return False\n        success', '        TopWriter.total += 1\n        if self.NW >= self.top_count:\n            return False\n        success'))], 'rbql_engine.TopWriter.total'),
+    ('os_environ_store', [(E, after(Q, "    os.environ['RBQL_LAST'] = 'x'\n"))], 'ext:os.environ'),
+    ('reflection_importlib', [(E, after(Q, "    import importlib\n    importlib.import_module('rbql.rbql_engine').query_counter = 1\n"))], 'REFUSED'),
+    ('reflection_sys_modules', [(E, after(Q, "    sys.modules[__name__].query_counter = 1\n"))], 'REFUSED'),
+    ('unknown_external_module', [(E, after(Q, "    import mmap\n    mmap.mmap(-1, 10)\n"))], 'REFUSED'),
+    ('eval_call', [(E, after(Q, "    eval('1')\n"))], 'REFUSED'),
+    ('decorator', [(E, before(DSG, 'import functools\n\n@functools.lru_cache(maxsize=None)\ndef _cached(x):\n    return x\n\n'))], 'REFUSED'),
     # ---------------- controls: must be accepted
     ('control_deepcopy', [(E, after(Q, "    import copy\n    g = copy.deepcopy(default_statement_groups)\n    g[0].append('X')\n"))], None),
     ('control_shallow_copy_outer', [(E, after(Q, "    g = list(default_statement_groups)\n    g.append([])\n    g.sort()\n"))], None),
@@ -118,7 +129,10 @@ def main():
                 continue
             n += 1
             st, info = run_variant(name, edits, scratch)
-            if st != 'TRANSLATED':
+            if expect == 'REFUSED':
+                ok = st == 'REFUSED'
+                verdict = ('REFUSED: ' + (info or '')[-150:]) if ok else 'NOT REFUSED (%s)' % st
+            elif st != 'TRANSLATED':
                 ok = False
                 verdict = '%s %s' % (st, info)
             elif expect is None:
